@@ -23,8 +23,10 @@ def workload(chk):
         items.append((os.path.basename(e[0]), corpus.cmdline(e)))
     for i in range(chk.pick(40, 200)):
         rng = chk.rng("gen", i)
-        k = rng.choice(["c", "cxx", "types", "static", "abi", "fallback", "fwd"])
-        if k == "c":
+        k = rng.choice(["c", "cxx", "types", "static", "abi", "fallback", "fwd", "objc"])
+        if k == "objc":
+            fl = objc_item(rng, d, "g%d" % i)
+        elif k == "c":
             p = write(os.path.join(d, "g%d.h" % i), gen_funcs.gen_c(rng, rng.randint(10, 40))[0])
             fl = [p] + rng.choice([[], ["--merge-extern-blocks"], ["--sort-semantically"], ["--with-derive-hash", "--with-derive-eq"]])
         elif k == "cxx":
@@ -79,6 +81,7 @@ def workload(chk):
             p = write(os.path.join(d, "g%d.h" % i), body + gen_funcs.gen_c(rng, 6)[0])
             fl = [p, "--experimental", "--wrap-static-fns", "--wrap-static-fns-path", os.path.join(d, "g%d_wrap" % i)]
         items.append(("gen%d-%s" % (i, k), fl))
+    items.append(("fixed-objc-protocols", objc_item(chk.rng("objc-fixed"), d, "fixed_objc", fixed=True)))
     # always present: overrides whose patterns overlap (which ABI wins must not vary), several kinds of extern block under merging
     fixed_hdr = write(os.path.join(d, "fixed_abi.h"), "".join("int evt_%d_cb(int);\nvoid plain_%d(void);\ntypedef void (*evt_%d_fp)(int);\n" % (j, j, j) for j in range(12)) +
                       "__attribute__((ms_abi)) int w0(int);\nint c0(int);\n__attribute__((ms_abi)) int w1(int);\nint c1(int);\nextern int gv0;\n")
@@ -87,6 +90,26 @@ def workload(chk):
                             ["--merge-extern-blocks", "--override-abi", "evt_[0-5].*=system", "--override-abi", "evt_.*_cb=C-unwind", "--sort-semantically"]]):
         items.append(("fixed-overlap-%d" % j, [fixed_hdr] + ov))
     return items
+
+
+def objc_item(rng, d, stem, fixed=False):
+    """Objective-C class hierarchies: protocols adopted at several levels (a subclass inherits the conformances of every ancestor), categories,
+    class and instance methods, properties, generics-free. Only hashed (nothing here is compiled)."""
+    nproto = 8 if fixed else rng.randint(3, 9)
+    protos = ["Proto%s%d" % (stem.replace("_", ""), k) for k in range(nproto)]
+    out = ["@protocol %s\n-(void)%s_m;\n+(int)%s_c:(int)x;\n@end\n" % (p_, p_.lower(), p_.lower()) for p_ in protos]
+    classes = []
+    for k in range(4 if fixed else rng.randint(2, 5)):
+        cn = "Cls%s%d" % (stem.replace("_", ""), k)
+        base = classes[-1] if classes and (fixed or rng.random() < 0.8) else None
+        adopt = rng.sample(protos, 4 if fixed and k < 2 else rng.randint(0, min(5, nproto)))
+        out.append("@interface %s%s%s\n-(int)m%d:(int)a with:(float)b;\n+(void)c%d;\n@property int p%d;\n@end\n" % (
+            cn, " : " + base if base else "", " <%s>" % ", ".join(adopt) if adopt else "", k, k, k))
+        if rng.random() < 0.4:
+            out.append("@interface %s (Cat%d) <%s>\n-(void)cat%d;\n@end\n" % (cn, k, rng.choice(protos), k))
+        classes.append(cn)
+    p = write(os.path.join(d, stem + "_objc.h"), "".join(out))
+    return [p] + rng.choice([[], ["--objc-extern-crate"], ["--generate", "types,functions,methods"]]) + ["--", "-x", "objective-c"]
 
 
 def digest(b):
